@@ -215,7 +215,7 @@ def r_who_cancel(ctx: Ctx, rule: str):
                    detail="" if ok else "cannot show that the receiver of cancel() ranges over the list of looked-up tasks")
 
 
-def _collects_all_lookups(ctx: Ctx, f: FuncInfo, name, varargs: Optional[str]) -> Optional[bool]:
+def _collects_all_lookups(ctx: Ctx, f: FuncInfo, name, varargs: Optional[str], _depth: int = 0) -> Optional[bool]:
     sc = ctx.an.scope(f)
     if isinstance(name, ast.AST):
         v = name
@@ -229,6 +229,20 @@ def _collects_all_lookups(ctx: Ctx, f: FuncInfo, name, varargs: Optional[str]) -
     def is_lookup(e: ast.AST, var: str) -> bool:
         return isinstance(e, ast.Call) and any(t.name == "_get_running_task" for t in sc.callee(e).targets) and len(e.args) == 1 \
             and isinstance(e.args[0], ast.Name) and e.args[0].id == var
+
+    if isinstance(v, ast.Call) and not (isinstance(v.func, ast.Name) and v.func.id in ("tuple", "list")) and _depth < 3:
+        # the collection is built by a helper that does nothing but return it: judged in the helper, for the parameter the ids arrive in
+        tg = [t for t in sc.callee(v).targets]
+        if len(tg) == 1 and not tg[0].is_async and tg[0].name != "_get_running_task":
+            h = tg[0]
+            body = [b for b in h.node.body if not (isinstance(b, ast.Expr) and isinstance(b.value, ast.Constant) and isinstance(b.value.value, str))]
+            if len(body) == 1 and isinstance(body[0], ast.Return) and body[0].value is not None and not h.node.decorator_list or \
+                    (len(body) == 1 and isinstance(body[0], ast.Return) and body[0].value is not None and h.kind in ("static", "method")):
+                for pname in h.param_names():
+                    a = ctx.call_arg(v, h, pname)
+                    if isinstance(a, ast.Name) and a.id == varargs:
+                        return _collects_all_lookups(ctx, h, body[0].value, pname, _depth + 1)
+        return None
 
     if isinstance(v, ast.Call) and isinstance(v.func, ast.Name) and v.func.id in ("tuple", "list") and len(v.args) == 1 and not v.keywords \
             and isinstance(v.args[0], (ast.GeneratorExp, ast.ListComp)):
@@ -825,3 +839,43 @@ def _none_test(e: ast.AST, name: str) -> Optional[bool]:
 def expr_role_reg(ctx: Ctx, f: FuncInfo, e: Optional[ast.AST]) -> bool:
     """Is e the function's own group-register parameter?"""
     return isinstance(e, ast.Name) and e.id in f.param_names() and e.id == "group_reg"
+
+
+def r_no_swallow(ctx: Ctx, rule: str) -> None:
+    """NO-SWALLOW.  A task of the pool that awaits one of the pool's own public coroutines (flush, gather_and_close,
+    until_closed) is suspended inside library code; a cancellation delivered to it there must come out of that coroutine.
+    Decided on the CFG of every public `async def` of the pool classes (helpers spliced in): no cancellation-delivery edge
+    of a suspension step leads to a handler / suppress(...) from which the function can go on normally."""
+    from ..cfg import NORMAL_KINDS
+    from ..queries import reach
+
+    rep = ctx.rep
+    rep.rule(rule, "NO-SWALLOW: a CancelledError delivered to the caller while it is suspended inside a public coroutine of the pool "
+                   "(flush / gather_and_close / until_closed) propagates out of it - no handler or suppress(...) around the suspension "
+                   "absorbs it and lets the method go on (the cancelled member task would survive inside library code)")
+    for anchor in ("flush", "gather_and_close", "until_closed"):
+        ctx.pool_funcs(anchor)
+    funcs = [f for f in ctx.pool_functions() if f.is_async and f.parent is None and not f.name.startswith("_")]
+    rep.floor(rule, "public coroutines of the pool classes", len(funcs), 3)
+    steps = 0
+    for f in funcs:
+        g = ctx.an.cfg(f)
+        seen = set()
+        for n in g.nodes:
+            if not n.pred and n is not g.entry:
+                continue
+            for s, lab in n.succ:
+                if lab[0] != "c":
+                    continue
+                steps += 1
+                if s.op not in ("handler", "suppressed"):
+                    continue
+                goes_on = reach([s], lambda a, b, l: l[0] in NORMAL_KINDS)
+                bad = g.exit in goes_on or any(m.op in ("await", "iter") and m is not n for m in goes_on)
+                key = (id(n.ast), id(s.ast))
+                if key in seen:
+                    continue
+                seen.add(key)
+                rep.ob(rule, "a cancellation delivered at this suspension is not absorbed by the method", not bad, node=n,
+                       detail="" if not bad else f"the CancelledError meant for the caller is caught by `{s.text(60)}` and {f.name}() continues as if nothing happened")
+    rep.floor(rule, "cancellation-delivery edges of suspension steps examined", steps, 4)
